@@ -188,6 +188,7 @@ type Exec struct {
 	epochCounter  int
 	pendingBinds  []*Clause
 	callCount     map[string]int
+	callOrd       map[*ssa.CallCommon]int
 	concatPrefix  map[string]string
 	globalFacts   []*Term // ground facts valid in every state (literal bytes, concat consequences)
 }
@@ -923,6 +924,9 @@ func (ex *Exec) setupEntry() {
 	for _, c := range ex.spec.Clauses {
 		if c.Kind == "ghost" || c.Kind == "bind" {
 			t := ex.V.specType(strings.TrimPrefix(c.Type, "before:"), ex.pkg)
+			if _, declared := ex.ghosts[c.Name]; declared && c.Kind == "bind" {
+				continue // initial value given by an earlier ghost clause
+			}
 			var v Val
 			if c.Kind == "ghost" && c.Expr != nil {
 				v = ex.evalSpec(c.Expr, ex.envAt(ex.init, nil))
